@@ -150,6 +150,22 @@ func (v *Verifier) loadGlobal(s *State, o *types.Var) *Term {
 			} else {
 				v.evalMapTable(s, o, init, h)
 			}
+			// slice variable initialised by a composite literal and never assigned or
+			// address-taken in its package (checked on the syntax; unexported only): its
+			// length is the literal's
+			if cl, ok := init.(*ast.CompositeLit); ok && !o.Exported() {
+				if _, isSl := o.Type().Underlying().(*types.Slice); isSl && v.globalNeverAssigned(o) {
+					keyed := false
+					for _, el := range cl.Elts {
+						if _, ok := el.(*ast.KeyValueExpr); ok {
+							keyed = true
+						}
+					}
+					if !keyed {
+						s.assume(Eq(SLen(h), IntLit(int64(len(cl.Elts)))))
+					}
+				}
+			}
 			// sentinel errors: var errX = errors.New(...) / fmt.Errorf(...)
 			if call, ok := init.(*ast.CallExpr); ok && h.Sort == SIface {
 				if sel, ok := call.Fun.(*ast.SelectorExpr); ok {
@@ -163,6 +179,54 @@ func (v *Verifier) loadGlobal(s *State, o *types.Var) *Term {
 		s.assume(v.typeFacts(s, h, o.Type()))
 	}
 	return h
+}
+
+// globalNeverAssigned: no assignment, inc/dec, range assignment or address-of names the
+// package-level variable anywhere in its package's (non-test) syntax.
+func (v *Verifier) globalNeverAssigned(o *types.Var) bool {
+	p := v.eng.globPkg[o]
+	if p == nil || p.TypesInfo == nil {
+		return false
+	}
+	isO := func(e ast.Expr) bool {
+		for {
+			switch x := e.(type) {
+			case *ast.ParenExpr:
+				e = x.X
+				continue
+			case *ast.Ident:
+				return p.TypesInfo.Uses[x] == o
+			}
+			return false
+		}
+	}
+	ok := true
+	for _, f := range p.Syntax {
+		ast.Inspect(f, func(n ast.Node) bool {
+			switch x := n.(type) {
+			case *ast.AssignStmt:
+				for _, l := range x.Lhs {
+					if isO(l) {
+						ok = false
+					}
+				}
+			case *ast.IncDecStmt:
+				if isO(x.X) {
+					ok = false
+				}
+			case *ast.RangeStmt:
+				if (x.Key != nil && isO(x.Key)) || (x.Value != nil && isO(x.Value)) {
+					ok = false
+				}
+			case *ast.UnaryExpr:
+				if x.Op == token.AND && isO(x.X) {
+					ok = false
+				}
+			}
+			return ok
+		})
+	}
+	return ok
 }
 
 func (v *Verifier) evalUnary(s *State, x *ast.UnaryExpr) *Term {
@@ -328,11 +392,27 @@ func (v *Verifier) evalSelector(s *State, x *ast.SelectorExpr) *Term {
 		}
 		return cur
 	case types.MethodVal:
-		// method value x.M (not called): opaque function value
+		// method value x.M (not called) on a receiver of basic type: an opaque non-nil
+		// function value determined by the method and the receiver value
+		if mfn, ok := sel.Obj().(*types.Func); ok {
+			if _, isBasic := sel.Recv().Underlying().(*types.Basic); isBasic && len(sel.Index()) == 1 {
+				return v.methodValue(s, mfn.FullName(), v.eval(s, x.X))
+			}
+		}
 		unsupported("method value %s", x.Sel.Name)
 	}
 	unsupported("selector kind")
 	return nil
+}
+
+// methodValue: the function value recv.M for a method M (full name) of a basic-typed
+// receiver: methval.<M>(recv), never nil and distinct from allocated closures.
+func (v *Verifier) methodValue(s *State, full string, recv *Term) *Term {
+	fn := "methval." + smtIdent(full)
+	v.d.declareFun(fn, []string{recv.Sort}, SInt)
+	r := mk(fn, SInt, recv)
+	s.assume(Lt(r, IntLit(-1000)))
+	return r
 }
 
 // idxInt converts an index term of Go type t to an Int term.
@@ -417,6 +497,11 @@ func (v *Verifier) evalIndex(s *State, x *ast.IndexExpr) *Term {
 }
 
 func (v *Verifier) strLen(str *Term) *Term {
+	if len(str.Args) == 0 && !str.IsLit && v.mode != "bv" {
+		if lit, ok := v.d.strByName[str.Op]; ok {
+			return IntLit(int64(len(lit)))
+		}
+	}
 	v.d.declareFun("gstr.len", []string{SStr}, SInt)
 	return mk("gstr.len", SInt, str)
 }
